@@ -141,10 +141,11 @@ SPECS = {
     "C02": _hnd("c02", extra=HNDB_FILES + ["Proofs/HandlerB_Examples.v"]),
     "C03": _hnd("c03", extra=HNDB_FILES + ["Proofs/HandlerB_Examples.v"]),
     "C04": _hnd("c04", extra=["Proofs/HandlerInv.v", "Proofs/HandlerA_Ledger.v", "Proofs/HandlerA_Nonce.v", "Proofs/HandlerA_Progress.v",
-                              "Proofs/HandlerB_Base.v", "Proofs/HandlerB_Frame.v", "Proofs/HandlerB_Session.v", "Proofs/HandlerB_Trace.v",
+                              "Proofs/HandlerA_Drain.v", "Proofs/HandlerA_Drain2.v", "Proofs/HandlerB_Base.v", "Proofs/HandlerB_Frame.v", "Proofs/HandlerB_Session.v", "Proofs/HandlerB_Trace.v",
                               "Proofs/HandlerB_Trace2.v", "Proofs/HandlerB_Trace3.v", "Proofs/HandlerA_Wire2.v", "Proofs/HandlerA_Wire3.v",
                               "Proofs/HandlerA_Wire4.v", "Proofs/HandlerA_Wire.v"]),
-    "C13": _hnd("c13", extra=["Proofs/HandlerInv.v"]),
+    "C13": _hnd("c13", extra=["Proofs/HandlerInv.v", "Proofs/HandlerA_Ledger.v", "Proofs/HandlerA_Nonce.v", "Proofs/HandlerA_Progress.v",
+                              "Proofs/HandlerA_Drain.v", "Proofs/HandlerA_Drain2.v"]),
     "C19": _hnd("c19", extra=HNDB_FILES + ["Proofs/HandlerB_Examples.v", "Proofs/HandlerB_Trace.v", "Proofs/HandlerB_Trace2.v", "Proofs/HandlerB_Trace3.v", "Proofs/HandlerB_TraceEx.v"]),
     "C17": {
         "coq_files": ["Generated/Params.v", "Model/IpVote.v", "Proofs/IpVote.v", "Run/IpVoteRun.v"],
